@@ -295,8 +295,13 @@ def step_list(ctx, g, h, sh, rng):
         ri = call(g, fi); rs = call(g, fs); item = [9, ir, idx]
     elif m == "delslice":
         a, b = ob(), ob()
-        desc = "del n%d.modules[%s:%s]" % (ir, a, b)
-        def fi(): del ml[a:b]
+        step1 = rng.random() < 0.3
+        desc = "del n%d.modules[%s:%s%s]" % (ir, a, b, ":1" if step1 else "")
+        def fi():
+            if step1:
+                del ml[a:b:1]
+            else:
+                del ml[a:b]
         def fs(): del l[a:b]
         ri = call(g, fi); rs = call(g, fs); item = [10, ir, world.opt(a), world.opt(b)]
     elif m == "setitem":
@@ -318,8 +323,13 @@ def step_list(ctx, g, h, sh, rng):
         hi = max(lo, worldgen._bound(world.opt(b), n, n))
         if any(x in l[:lo] + l[hi:] for x in vs):
             return None          # D4 shape
-        desc = "n%d.modules[%s:%s] = %s" % (ir, a, b, vs)
-        def fi(): ml[a:b] = [O[x] for x in vs]
+        step1 = rng.random() < 0.3          # an explicit step of 1 is an ordinary slice for list
+        desc = "n%d.modules[%s:%s%s] = %s" % (ir, a, b, ":1" if step1 else "", vs)
+        def fi():
+            if step1:
+                ml[a:b:1] = [O[x] for x in vs]
+            else:
+                ml[a:b] = [O[x] for x in vs]
         ri = call(g, fi)
         for ll in sh.lists.values():
             if ll is not l:
